@@ -185,10 +185,14 @@ impl Module for Node {
                     });
                 }
                 TaskKind::Finite => {
+                    let idx = self.idx;
                     let h = tokio::spawn(async move {
                         let _t = token;
-                        for _ in 0..3 {
+                        for step in 0..3u16 {
                             sleep(Duration::from_nanos(5 * MS)).await;
+                            // the wake-ups of the task are part of the observable behaviour (follow-up simulation:
+                            // "behaves as in a fresh process" includes its timers)
+                            TRACE.with(|t| t.borrow_mut().push((idx, SimTime::now().as_nanos() as u64, 9000 + step)));
                         }
                     });
                     current().try_join(h);
